@@ -82,6 +82,56 @@ func runEXShape(c *load.Ctx, r *report.RuleResult) {
 			r.OK("keyenc|object", c.Pos(objFn.Pos()), fmt.Sprintf("%d assembled objects: keys written from the source token or through an encoder", keyRuns))
 		}
 	}()
+	// a key shortcut (@key: value) is written as the example of the key's type, built like any value
+	if bk := c.Func("notations/jschema", "exampleBuilder.buildObjectKey"); bk != nil && keyT != nil {
+		if f := c.Func("internal/lexeme", "LexEvent.Value"); f != nil {
+			e.cfg.Intrinsics[f.String()] = func(in *pe.Interp, args []pe.Value) (pe.Value, bool) {
+				return pe.NewSym("token("+strings.Trim(pe.Show(args[0]), "‹›")+")", f.Signature.Results().At(0).Type()), true
+			}
+		}
+		outs := pe.ExploreFn(e.cfg, func(in *pe.Interp) pe.Value {
+			st := keyT.Underlying().(*types.Struct)
+			sv := &pe.StructV{T: keyT, F: make([]pe.Value, st.NumFields())}
+			for k := 0; k < st.NumFields(); k++ {
+				f := st.Field(k)
+				if f.Name() == "IsShortcut" {
+					sv.F[k] = true
+				} else {
+					sv.F[k] = pe.NewSym("key."+f.Name(), f.Type())
+				}
+			}
+			return in.Call(bk, []pe.Value{pe.NewSym("builder", bk.Params[0].Type()), sv})
+		})
+		var problems []string
+		built := 0
+		for _, o := range outs {
+			if o.Undecided != "" || o.Panicked {
+				problems = append(problems, "not interpretable: "+o.Exit())
+				continue
+			}
+			tp, ok := o.Ret.(*pe.Tuple)
+			if !ok || len(tp.E) != 2 {
+				continue
+			}
+			if !pe.IsNil(tp.E[1]) || pe.IsNil(tp.E[0]) {
+				continue // an error, or nothing to write
+			}
+			shown := pe.Show(tp.E[0])
+			if strings.Contains(shown, "ex(") && strings.Contains(strings.ToLower(shown), "rootnode") {
+				built++
+			} else {
+				problems = append(problems, "a key shortcut is written as "+shown+", not as the built example of the key's type (a type that is itself a reference or an or-list has no literal token of its own)")
+			}
+		}
+		if built == 0 && len(problems) == 0 {
+			problems = append(problems, "no path writes the example of the key's type")
+		}
+		if len(problems) > 0 {
+			r.Bad("keyshortcut|object", c.Pos(bk.Pos()), strings.Join(uniq(problems), "; "))
+		} else {
+			r.OK("keyshortcut|object", c.Pos(bk.Pos()), "a key shortcut is written as the example built for the root node of its type")
+		}
+	}
 	for _, kind := range []struct {
 		name string
 		fn   *ssa.Function
